@@ -133,6 +133,16 @@ def print_assumptions(prop, workdir):
       res[n] = 'NOT-REPORTED'
   return p.returncode == 0, res, p.stdout
 
+def coqchk(prop, timeout=1500):
+  """Independent re-check of Properties/<prop>.vo and everything it depends on; returns (ok, axioms text)."""
+  p = subprocess.run(['timeout', str(timeout), 'coqchk', '-silent', '-o', '-Q', '.', 'PG', 'PG.Properties.' + prop],
+                     cwd=COQ, stdout=subprocess.PIPE, stderr=subprocess.STDOUT, text=True)
+  m = re.search(r'\* Axioms:(.*?)\n\s*\n\* Constants/Inductives relying on type-in-type:(.*?)\n\s*\n\* Constants/Inductives relying on unsafe \(co\)fixpoints:(.*?)\n\s*\n\* Inductives whose positivity is assumed:(.*?)(\n\s*\n|\Z)', p.stdout, re.S)
+  if p.returncode != 0 or not m:
+    return False, p.stdout[-800:]
+  parts = [re.sub(r'\s+', ' ', x).strip() for x in m.groups()[:4]]
+  return True, dict(axioms=parts[0], type_in_type=parts[1], unsafe_fixpoints=parts[2], assumed_positivity=parts[3])
+
 # ------------------------------------------------------------------------------------------------
 def _newest_vo():
   m = 0
